@@ -57,6 +57,9 @@ type SpecEnv struct {
 	block   *ssa.BasicBlock // context for local names (loop invariants)
 	callee  bool
 	inOld   bool
+	inPrev  bool
+	prevSt  *State
+	prevPhi map[*ssa.Phi]Val
 	qdepth  int
 }
 
@@ -174,6 +177,9 @@ func (env *SpecEnv) loaded(v Val) SVal {
 }
 
 func (env *SpecEnv) state() *State {
+	if env.inPrev {
+		return env.prevSt
+	}
 	if env.inOld {
 		return env.old
 	}
@@ -340,6 +346,12 @@ func (env *SpecEnv) loopVar(name string) SVal {
 		}
 		c := strings.TrimPrefix(phi.Comment, "#")
 		if c == name || phi.Name() == name {
+			if env.inPrev {
+				if hv, ok := env.prevPhi[phi]; ok {
+					return fromVal(hv)
+				}
+				specFail("no head value for @%s", name)
+			}
 			return fromVal(fr.vals[phi])
 		}
 	}
@@ -933,10 +945,20 @@ func (env *SpecEnv) callExpr(x *ast.CallExpr) SVal {
 	arg := func(i int) SVal { return env.expr(x.Args[i]) }
 	switch name {
 	case "old":
-		saved := env.inOld
-		env.inOld = true
+		saved, savedP := env.inOld, env.inPrev
+		env.inOld, env.inPrev = true, false
 		v := env.expr(x.Args[0])
-		env.inOld = saved
+		env.inOld, env.inPrev = saved, savedP
+		return v
+	case "prev":
+		// prev(e): e at the head of the current loop iteration (loop step clauses only)
+		if env.prevSt == nil {
+			specFail("prev() outside a loop step clause")
+		}
+		saved, savedO := env.inPrev, env.inOld
+		env.inPrev, env.inOld = true, false
+		v := env.expr(x.Args[0])
+		env.inPrev, env.inOld = saved, savedO
 		return v
 	case "len":
 		v := arg(0)
